@@ -43,14 +43,18 @@ template <class D> bool near_range_end(i128 count) {
 	const i128 ticksPerDay = static_cast<i128>(86400) * D::period::den / D::period::num;
 	return count - lo < (ticksPerDay > 0 ? ticksPerDay : 1);
 }
-// Recorded finding KF-33: coarse 64-bit time points (minutes, hours, days) whose seconds since the epoch do not fit int64 (years beyond
-// +-292 billion): the printer overflows its int64 day arithmetic / its 32-byte buffer.  Such instants are also outside what time_t and
-// the MsgPack timestamp can carry.
+// Recorded finding KF-33 (narrowed after fix d6c75fd, which repaired the 32-byte print buffer): time_point<days, int64> within 719468 days
+// of max(): the printer computes `days + 719468` in int64 (signed overflow, the year comes out with the wrong sign).
 template <class D> bool beyond_printable(i128 count) {
 #ifdef NO_EXCL
 	return false;
 #endif
-	if (sizeof(typename D::rep) < 8) return false;
+	if (sizeof(typename D::rep) < 8 || D::period::num != 86400) return false;
+	return count > static_cast<i128>(INT64_MAX) - 719468;
+}
+// Coarse 64-bit time points (minutes, hours, days) whose seconds since the epoch do not fit int64 (years beyond +-292 billion) print and
+// parse like any other, but are outside what the MsgPack timestamp can carry: saving them must be reported as Overflow.
+template <class D> bool beyond_timestamp(i128 count) {
 	const i128 secs = count * D::period::num / D::period::den;
 	return secs > static_cast<i128>(INT64_MAX) || secs < static_cast<i128>(INT64_MIN);
 }
@@ -166,12 +170,13 @@ template <class D> void prop_tp(vf::Ctx& c) {
 	rejected_conversion_before(c);
 	i128 count = gen_count<D>(c.src, true);
 	c.describe(vf::cat("tp ", dname<D>(), " ", refcal::i128s(count)));
-	if (near_range_end<D>(count) || beyond_printable<D>(count)) { c.label(near_range_end<D>(count) ? "excluded:KF-33-range-end" : "excluded:KF-33-year-beyond-buffer"); c.discard("KF-33"); }
+	if (near_range_end<D>(count) || beyond_printable<D>(count)) { c.label(near_range_end<D>(count) ? "excluded:KF-27-range-end" : "excluded:KF-33-last-1970-years-of-days"); c.discard("KF-33"); }
 	const i128 secs = refcal::fdiv(count * D::period::num, D::period::den);
 	c.nontrivial = secs < 0 || secs >= 253402300800LL;
 	std::string d; if (const char* e = check_tp<D>(count, d)) c.fail(e, d);
 	time_point<system_clock, D> tp{ D(static_cast<typename D::rep>(count)) };
-	if (const char* e = check_msgpack(tp, d)) c.fail(e, d);
+	if (beyond_timestamp<D>(count)) c.label("year beyond +-292 billion");
+	if (const char* e = check_msgpack(tp, d, !beyond_timestamp<D>(count))) c.fail(e, d);
 }
 template <class D> void prop_dur(vf::Ctx& c) {
 	rejected_conversion_before(c);
@@ -276,24 +281,21 @@ template <class D> void kf27_case(vf::Ctx& c) {
 }
 template <class D> void kf33_case(vf::Ctx& c) {
 	using R = typename D::rep; using TP = time_point<system_clock, D>;
-	// an instant of a coarse 64-bit time_point whose seconds since the epoch do not fit int64
-	const i128 limit = static_cast<i128>(INT64_MAX) / D::period::num;
-	i128 count = c.src.coin() ? static_cast<i128>(std::numeric_limits<R>::max()) - static_cast<i128>(c.src.draw(1000000)) : limit + 2 + static_cast<i128>(c.src.draw(1000000));
-	if (c.src.coin()) count = -count;
+	// a day-precision instant within 719468 days of max(): `days + 719468` overflows in the printer
+	const i128 count = static_cast<i128>(std::numeric_limits<R>::max()) - static_cast<i128>(c.src.draw(719468));
 	c.describe(vf::cat("kf33 ", dname<D>(), " ", refcal::i128s(count))); c.nontrivial = true;
 	TP tp{ D(static_cast<R>(count)) };
 	const std::string want = refcal::print_instant(count, D::period::num, D::period::den, 0);
 	std::string text;
 	try { text = Convert::ToString(tp); }
-	catch (const std::runtime_error&) { c.fail("KF-33: printing a coarse 64-bit time point beyond +-292 billion years fails or is wrong", vf::cat(dname<D>(), " ", refcal::i128s(count), " threw, want ", want)); }
-	if (text != want) c.fail("KF-33: printing a coarse 64-bit time point beyond +-292 billion years fails or is wrong", vf::cat(dname<D>(), " ", refcal::i128s(count), " text=", text, " want ", want));
+	catch (const std::runtime_error&) { c.fail("KF-33: printing a day-precision 64-bit time point within 719468 days of max() fails or is wrong", vf::cat(dname<D>(), " ", refcal::i128s(count), " threw, want ", want)); }
+	if (text != want) c.fail("KF-33: printing a day-precision 64-bit time point within 719468 days of max() fails or is wrong", vf::cat(dname<D>(), " ", refcal::i128s(count), " text=", text, " want ", want));
 }
 }
 VF_PROPERTY(kf27_s, 1, "witness of KF-27") { kf27_case<dur_s<int64_t>>(c); }
 VF_PROPERTY(kf27_ms, 1, "witness of KF-27") { kf27_case<dur_ms<int64_t>>(c); }
 VF_PROPERTY(kf27_ns, 1, "witness of KF-27") { kf27_case<dur_ns<int64_t>>(c); }
 VF_PROPERTY(kf27_s32, 1, "witness of KF-27") { kf27_case<dur_s<int32_t>>(c); }
-VF_PROPERTY(kf33_h, 1, "witness of KF-33") { kf33_case<dur_h<int64_t>>(c); }
 VF_PROPERTY(kf33_days, 1, "witness of KF-33") { kf33_case<dur_d<int64_t>>(c); }
 
 int main(int argc, char** argv) {
